@@ -61,6 +61,36 @@ def t_roundtrip(E):
     E.refutable("diff.roundtrip", E.eq(E.call(D + "tree_primal", ((E.real("q"), E.real("r")),))[0][0], E.real("r")))
 
 
+@task("diff.mixed_trees", props=["C21", "C08"], functions=FUNCS)
+def t_mixed(E):
+    """trees in which only SOME leaves are Diff values (raw leaves count as unchanged constants)"""
+    a, b, c = E.real("a"), E.real("b"), E.flag("c", conc=False)
+    t1, t2 = sym_tangent(E, "t1"), sym_tangent(E, "t2")
+    da, db = diff(E, a, t1), diff(E, b, t2)
+    trees = {
+        "tuple_raw_first": ((a, db), (a, b), [t2]),
+        "tuple_raw_last": ((da, b), (a, b), [t1]),
+        "nested": ((da, {"x": b, "y": (c, db)}), (a, {"x": b, "y": (c, b)}), [t1, t2]),
+        "pytree_dataclass": ((E.new(FT + ":Mask", value=da, flag=c), b), (E.new(FT + ":Mask", value=a, flag=c), b), [t1]),
+    }
+    for name, (mixed, plain, tangents) in trees.items():
+        allnc = all(is_nc(x) for x in tangents)
+        E.prove(f"C21.Diff.static_check_no_change.iff_all_tangents_nochange[mixed,{name}]",
+                E.z(E.call(D + "static_check_no_change", mixed)) == allnc)
+        E.prove(f"C21.Diff.static_check_tree_diff.false_when_some_leaf_is_raw[mixed,{name}]",
+                E.z(E.call(D + "static_check_tree_diff", mixed)) == False)  # noqa: E712
+        E.prove(f"C21.Diff.tree_primal.strips_only_the_diff_leaves[mixed,{name}]", E.eq(E.call(D + "tree_primal", mixed), plain))
+        tg = E.call(D + "tree_tangent", mixed)
+        E.prove(f"C21.Diff.tree_tangent.raw_leaves_are_nochange[mixed,{name}]",
+                E.z(E.call(D + "static_check_no_change", E.call(D + "tree_diff", plain, tg))) == allnc)
+        for fn, want_nc in (("no_change", True), ("unknown_change", False)):
+            r = E.call(D + fn, mixed)
+            E.prove(f"C21.Diff.{fn}.primal_preserved[mixed,{name}]", E.eq(E.call(D + "tree_primal", r), plain))
+            E.prove(f"C21.Diff.{fn}.is_diff_tree[mixed,{name}]", E.z(E.call(D + "static_check_tree_diff", r)) == True)  # noqa: E712
+            E.prove(f"C21.Diff.{fn}.tags[mixed,{name}]", E.z(E.call(D + "static_check_no_change", r)) == want_nc)
+    E.refutable("diff.mixed_trees", E.eq(E.call(D + "tree_primal", (a, db))[1], a))
+
+
 @task("diff.opaque_leaf", props=["C21"], functions=FUNCS)
 def t_opaque_leaf(E):
     """a leaf about which nothing is known: it may or may not be a Diff"""
